@@ -198,3 +198,28 @@ Print Assumptions C09_raft_producer_slot_clock_clauses_refuted.
 Theorem C09_sbp_all_clauses_refuted : checks_accept (sbp_checks false false) = true.
 Proof. exact sbp_all_clauses_refuted. Qed.
 Print Assumptions C09_sbp_all_clauses_refuted.
+
+(** Readable corollaries of the invariant: a block whose signature does not verify, or that
+    has only ever arrived two or more slots ahead of the clock, is never connected, stored or
+    parked; such an arrival (or one with a foreign chain id) leaves the node untouched, so the
+    block is accepted when it comes again in time. *)
+Theorem C09_forged_block_never_kept : forall iv cluster_of cap genesis f42 evs b,
+  b_sig b = false -> b <> genesis ->
+  let s := run iv cluster_of cap genesis f42 evs (init genesis) in
+  ~ In b (n_main s) /\ ~ In b (n_store s) /\ ~ In b (n_orph s).
+Proof. exact forged_block_never_kept. Qed.
+Print Assumptions C09_forged_block_never_kept.
+
+Theorem C09_always_future_block_never_kept : forall iv cluster_of cap genesis f42 evs b,
+  (forall now, In (Arrive b now) evs -> is_future (from_unix_ns iv (b_ts b)) (from_unix_ns iv now) = true) ->
+  b <> genesis ->
+  let s := run iv cluster_of cap genesis f42 evs (init genesis) in
+  ~ In b (n_main s) /\ ~ In b (n_store s) /\ ~ In b (n_orph s).
+Proof. exact always_future_block_never_kept. Qed.
+Print Assumptions C09_always_future_block_never_kept.
+
+Theorem C09_future_arrival_leaves_node_unchanged : forall iv cluster_of cap genesis f42 s b now,
+  is_future (from_unix_ns iv (b_ts b)) (from_unix_ns iv now) = true \/ b_cid b = false ->
+  fst (fst (arrive iv cluster_of cap genesis f42 s b now)) = s.
+Proof. exact future_arrival_leaves_node_unchanged. Qed.
+Print Assumptions C09_future_arrival_leaves_node_unchanged.
